@@ -52,15 +52,29 @@ def _types():
     return {'VarInt': (VarInt, 5, 2 ** 32), 'VarLong': (VarLong, 10, 2 ** 64)}
 
 
+def _ctx():
+    from minecraft.networking.connection import ConnectionContext
+    return ConnectionContext(protocol_version=757)
+
+
 def decode_case(ctx, case):
     tname, data = case['type'], case['data']
     T, maxb, _ = _types()[tname]
     ctx.ev()
     ref = wire.classify_varint(data, maxb + 1)
     s = CountingStream(data)
+    # 'via': the entry point packets use - read_with_context on the class or
+    # on an instance (None: plain read); the same contract holds for each
+    via = case.get('via')
+    if via == 'ctx_class':
+        rd = lambda: T.read_with_context(s, _ctx())     # noqa: E731
+    elif via == 'ctx_instance':
+        rd = lambda: T().read_with_context(s, _ctx())   # noqa: E731
+    else:
+        rd = lambda: T.read(s)                          # noqa: E731
     try:
-        got = run_with_line_budget(lambda: T.read(s), LINE_BUDGET) \
-            if case.get('traced') else T.read(s)
+        got = run_with_line_budget(rd, LINE_BUDGET) \
+            if case.get('traced') else rd()
         out = ('value', got, s.pos)
         exc = None
     except BudgetExceeded:
@@ -102,8 +116,15 @@ def encode_case(ctx, case):
     if n >= 128 or n < 0:
         ctx.nt(tname, n)
     sink = Sink()
+    via = case.get('via')
+    if via == 'ctx_class':
+        wr = lambda: T.send_with_context(n, sink, _ctx())       # noqa: E731
+    elif via == 'ctx_instance':
+        wr = lambda: T().send_with_context(n, sink, _ctx())     # noqa: E731
+    else:
+        wr = lambda: T.send(n, sink)                            # noqa: E731
     try:
-        run_with_line_budget(lambda: T.send(n, sink), LINE_BUDGET)
+        run_with_line_budget(wr, LINE_BUDGET)
         raised = None
     except BudgetExceeded:
         ctx.label('encode_budget_exceeded')
@@ -221,6 +242,11 @@ def t_decode_shapes(ctx, lo, hi):
                     data = bytes((0x80 if shape >> i & 1 else 0) | pay
                                  for i in range(length))
                     decode_case(ctx, {'type': tname, 'data': data})
+                    if pay == 0x01:
+                        # the entry points packets use
+                        decode_case(ctx, {'type': tname, 'data': data,
+                                          'via': ['ctx_class', 'ctx_instance']
+                                          [shape & 1]})
                     # same followed by junk: must not matter
                     decode_case(ctx, {'type': tname,
                                       'data': data + b'\xff\x00\x81',
@@ -240,6 +266,8 @@ def t_decode_random(ctx, n):
 
     def body(c, x):
         case = {'type': x[0], 'data': x[1]}
+        if len(x[1]) % 3 == 0:
+            case['via'] = ['ctx_class', 'ctx_instance'][len(x[1]) % 2]
         decode_case(c, case)
         if c.evaluations % 500 == 1:
             c.sample(case, 'decode')
@@ -260,6 +288,8 @@ def t_encode_boundaries(ctx):
         for k in range(0, 78):
             for n in (2 ** k - 1, 2 ** k, 2 ** k + 1):
                 encode_case(ctx, {'type': tname, 'n': n})
+                encode_case(ctx, {'type': tname, 'n': n,
+                                  'via': ['ctx_class', 'ctx_instance'][k & 1]})
             for n in (-(2 ** k), -(2 ** k) - 1, -(2 ** k) + 1):
                 if n < 0:
                     encode_case(ctx, {'type': tname, 'n': n})
@@ -276,6 +306,8 @@ def t_encode_random(ctx, n):
 
     def body(c, x):
         case = {'type': x[0], 'n': x[1]}
+        if x[1] % 3 == 0:
+            case['via'] = ['ctx_class', 'ctx_instance'][x[1] % 2]
         encode_case(c, case)
         if c.evaluations % 500 == 1:
             c.sample(case, 'encode')
